@@ -22,6 +22,10 @@ the loader rewrites:
   N6  while True: if X: break; rest    ->  while not X: rest         (loops without else whose first statement is the exit test)
   N31 for T in iter(F, None): BODY     ->  while True: t = F(); if t is None: break; T = t; BODY     (two-argument iter, None sentinel)
   N32 a = b = E                        ->  b = E; a = b              (chained assignment to names / plain attribute paths)
+  N44 a, b = E1, E2  (names; no Ei reads a or b)  ->  a = E1; b = E2
+  N43 NAME = <constant> at class / module level, bound once, never stored elsewhere  ->  read as the constant
+  N42 while True: S; if X: break  ->  S; while not X: S      (the do-while form; S one or two plain statements)
+  N41 while (t := E) ...: B  ->  while True: t = E; if not (t ...): break; B ;   if (t := E) ...: -> t = E; if t ...:
   N40 dict((K, V) for ...)             ->  {K: V for ...}
   N39 it = iter(X); while True: p = next(it, S); if p is S: break; BODY   ->   for p in X: BODY     (also the StopIteration form)
   N38 if c: A; return  REST  (function top level, bare return, A not empty)  ->  if c: A else: REST
@@ -237,6 +241,21 @@ class _N(ast.NodeTransformer):
     def visit_While(self, node: ast.While):
         node.body = _continue_to_else(node.body)
         self.generic_visit(node)
+        # N42 (the do-while form): while True: S; if X: break; [if Y: break]      ->      S; while not X [and not Y]: S
+        # (S one or two plain statements - assignments, augmented assignments, calls - without break / continue; every exit test
+        # sits behind S; the loop body of the result is a copy of S)
+        if isinstance(node.test, ast.Constant) and node.test.value is True and not node.orelse and len(node.body) >= 2:
+            k = len(node.body)
+            while k > 0 and isinstance(node.body[k - 1], ast.If) and not node.body[k - 1].orelse and len(node.body[k - 1].body) == 1 \
+                    and isinstance(node.body[k - 1].body[0], ast.Break):
+                k -= 1
+            lead, guards_ = node.body[:k], node.body[k:]
+            if guards_ and 1 <= len(lead) <= 2 and all(isinstance(x, (ast.Assign, ast.AugAssign, ast.Expr)) for x in lead) \
+                    and not any(isinstance(n_, (ast.Yield, ast.YieldFrom, ast.Await, ast.NamedExpr)) for x in lead for n_ in ast.walk(x)):
+                tests = [_negate(g.test) for g in guards_]
+                test = tests[0] if len(tests) == 1 else ast.BoolOp(op=ast.And(), values=tests)
+                loop = ast.copy_location(ast.While(test=ast.copy_location(test, guards_[0].test), body=[_clone(x) for x in lead], orelse=[]), node)
+                return lead + [ast.fix_missing_locations(loop)]
         # N6: while True: if X: break; rest   ->   while not X: rest
         if isinstance(node.test, ast.Constant) and node.test.value is True and not node.orelse and node.body:
             # N15 (loop rotation): leading `t = <attribute chain / name>` statements in front of the exit test are read-only
@@ -1184,12 +1203,78 @@ class _SpecialiseDefaults(ast.NodeTransformer):
     visit_AsyncFunctionDef = visit_FunctionDef
 
 
+def _walrus_first(test):
+    """(holder, field, index, NamedExpr) when an assignment expression binding a plain name is the first thing ``test`` evaluates"""
+    holder, fld, idx = None, None, None
+    e = test
+    while True:
+        if isinstance(e, ast.NamedExpr):
+            return (holder, fld, idx, e) if isinstance(e.target, ast.Name) else None
+        if isinstance(e, ast.UnaryOp) and isinstance(e.op, ast.Not):
+            holder, fld, idx, e = e, "operand", None, e.operand
+        elif isinstance(e, ast.BoolOp):
+            holder, fld, idx, e = e, "values", 0, e.values[0]
+        elif isinstance(e, ast.Compare):
+            holder, fld, idx, e = e, "left", None, e.left
+        else:
+            return None
+
+
+def _unwalrus(test):
+    """(binding statement, the test reading the bound name) for a test whose first evaluated thing is `name := E` and that holds no
+    other assignment expression; None otherwise"""
+    slot = _walrus_first(test)
+    if slot is None or sum(1 for n in ast.walk(test) if isinstance(n, ast.NamedExpr)) != 1:
+        return None
+    holder, fld, idx, ne = slot
+    read = ast.copy_location(ast.Name(id=ne.target.id, ctx=ast.Load()), ne)
+    if holder is None:
+        new_test = read
+    else:
+        new_test = test
+        if idx is None:
+            setattr(holder, fld, read)
+        else:
+            getattr(holder, fld)[idx] = read
+    bind = ast.copy_location(ast.Assign(targets=[ast.Name(id=ne.target.id, ctx=ast.Store())], value=ne.value), ne)
+    return bind, new_test
+
+
 class _IterSentinel(ast.NodeTransformer):
+    def visit_While(self, node: ast.While):
+        # N41: while (t := E) <rest of test>: BODY      ->      while True: t = E; if not (t <rest of test>): break; BODY
+        #      if (t := E) <rest of test>: ...           ->      t = E; if t <rest of test>: ...
+        # (the assignment expression is the first thing the test evaluates; a `continue` of BODY re-enters at the binding, as it
+        # re-evaluated the test before)
+        self.generic_visit(node)
+        if node.orelse:
+            return node
+        r = _unwalrus(node.test)
+        if r is None:
+            return node
+        bind, test = r
+        brk = ast.copy_location(ast.If(test=_negate(test), body=[ast.copy_location(ast.Break(), node)], orelse=[]), node)
+        loop = ast.While(test=ast.copy_location(ast.Constant(value=True), node), body=[bind, brk] + list(node.body), orelse=[])
+        return ast.fix_missing_locations(ast.copy_location(loop, node))
+
+    def visit_If(self, node: ast.If):
+        self.generic_visit(node)
+        r = _unwalrus(node.test)
+        if r is None:
+            return node
+        bind, test = r
+        node.test = test
+        return [bind, ast.fix_missing_locations(node)]
+
     def visit_FunctionDef(self, node):
         # N38: at the top level of a function   if c: A...; return      REST      ->      if c: A...  else: REST
         # (a bare `return` closing an arm that does real work: the two-armed form of the same dispatch; plain guard clauses -
         # `if c: return`, `if c: raise ...`, `if c: return value` - stay as they are)
-        self.generic_visit(node)
+        self._depth = getattr(self, "_depth", 0) + 1
+        try:
+            self.generic_visit(node)
+        finally:
+            self._depth -= 1
         for k, st in enumerate(node.body):
             if isinstance(st, ast.If) and not st.orelse and len(st.body) >= 2 and isinstance(st.body[-1], ast.Return) \
                     and st.body[-1].value is None and k + 1 < len(node.body) \
@@ -1201,6 +1286,13 @@ class _IterSentinel(ast.NodeTransformer):
         return node
 
     visit_AsyncFunctionDef = visit_FunctionDef
+
+    def visit_AnnAssign(self, node: ast.AnnAssign):
+        # N10 (early, so that the alias pass sees it): inside a function `name: T = value` is `name = value`
+        self.generic_visit(node)
+        if getattr(self, "_depth", 0) > 0 and node.value is not None and isinstance(node.target, ast.Name):
+            return ast.copy_location(ast.Assign(targets=[node.target], value=node.value), node)
+        return node
 
     @staticmethod
     def _filtered_source(node: ast.For):
@@ -1229,6 +1321,14 @@ class _IterSentinel(ast.NodeTransformer):
         # N32: a = b = E  (names and plain attribute paths)   ->   b = E; a = b       (E evaluated once, as in the chained form;
         # a constant or a name on the right is simply repeated)
         self.generic_visit(node)
+        # N44: a, b = E1, E2  (plain names on the left, as many expressions on the right, none of which reads a or b)  ->  a = E1; b = E2
+        if len(node.targets) == 1 and isinstance(node.targets[0], (ast.Tuple, ast.List)) and isinstance(node.value, (ast.Tuple, ast.List)) \
+                and len(node.targets[0].elts) == len(node.value.elts) and all(isinstance(t, ast.Name) for t in node.targets[0].elts) \
+                and not any(isinstance(v, ast.Starred) for v in node.value.elts):
+            names = {t.id for t in node.targets[0].elts}
+            if len(names) == len(node.targets[0].elts) and not any(isinstance(x, ast.Name) and x.id in names for v in node.value.elts for x in ast.walk(v)) \
+                    and not any(isinstance(x, (ast.NamedExpr, ast.Lambda)) for v in node.value.elts for x in ast.walk(v)):
+                return [ast.copy_location(ast.Assign(targets=[t], value=v), node) for t, v in zip(node.targets[0].elts, node.value.elts)]
         if len(node.targets) < 2 or not all(isinstance(t, ast.Name) or (isinstance(t, ast.Attribute) and _pure_path(t)) for t in node.targets):
             return node
         if isinstance(node.value, (ast.Constant, ast.Name)):
@@ -1451,10 +1551,116 @@ def src_(e) -> str:
     return ast.unparse(e)
 
 
+# N43: named constants.  A class-level `NAME = <constant>` (None / bool / number / str) whose name is stored to nowhere else in the
+# package reads as the constant through self / cls / the class / type(self); a module-level `NAME = <constant>` bound once in its
+# module (no other store, no parameter or local of that name) reads as the constant inside the module.
+CLASS_CONSTS: dict = {}
+
+
+def _const_binding(st):
+    if isinstance(st, ast.Assign) and len(st.targets) == 1 and isinstance(st.targets[0], ast.Name):
+        tgt, val = st.targets[0].id, st.value
+    elif isinstance(st, ast.AnnAssign) and isinstance(st.target, ast.Name) and st.value is not None:
+        tgt, val = st.target.id, st.value
+    else:
+        return None
+    if isinstance(val, ast.UnaryOp) and isinstance(val.op, ast.USub) and isinstance(val.operand, ast.Constant) \
+            and isinstance(val.operand.value, (int, float)):
+        return tgt, val
+    if isinstance(val, ast.Constant) and (val.value is None or isinstance(val.value, (bool, int, float, str, bytes))):
+        return tgt, val
+    return None
+
+
+def _class_const_binding(cls_node: ast.ClassDef, st):
+    """a constant of the class itself: a plain assignment (or one annotated ClassVar) in a class that is not an enumeration; an
+    annotated attribute with a default is a dataclass / NamedTuple *field*, whose value the generated constructor sets"""
+    if any("Enum" in ast.unparse(b) or "Flag" in ast.unparse(b) for b in cls_node.bases):
+        return None
+    if isinstance(st, ast.AnnAssign) and "ClassVar" not in ast.unparse(st.annotation):
+        return None
+    return _const_binding(st)
+
+
+def collect_class_consts(trees) -> dict:
+    cand: dict = {}
+    bad = set()
+    for t in trees:
+        for n in ast.walk(t):
+            if isinstance(n, ast.ClassDef):
+                for st in n.body:
+                    b = _class_const_binding(n, st)
+                    if b is not None:
+                        cand.setdefault(b[0], b[1])
+                    elif isinstance(st, (ast.Assign, ast.AnnAssign, ast.AugAssign)):
+                        for x in ast.walk(st):
+                            if isinstance(x, ast.Name) and isinstance(x.ctx, ast.Store):
+                                bad.add(x.id)
+            if isinstance(n, ast.Attribute) and isinstance(n.ctx, (ast.Store, ast.Del)):
+                bad.add(n.attr)
+            if isinstance(n, ast.Call) and isinstance(n.func, ast.Name) and n.func.id in ("setattr", "delattr"):
+                return {}
+    # a name bound as a constant in two class bodies is not one fact
+    seen: dict = {}
+    for t in trees:
+        for n in ast.walk(t):
+            if isinstance(n, ast.ClassDef):
+                for st in n.body:
+                    b = _const_binding(st)         # any binding of the name in any class body counts against uniqueness
+                    if b is not None:
+                        seen[b[0]] = seen.get(b[0], 0) + 1
+    return {k: v for k, v in cand.items() if k not in bad and seen.get(k) == 1 and not (k.startswith("__") and k.endswith("__"))}
+
+
+class _PropagateConsts(ast.NodeTransformer):
+    def __init__(self, tree: ast.Module):
+        # module-level constants of this module
+        binds: dict = {}
+        count: dict = {}
+        for st in tree.body:
+            b = _const_binding(st)
+            if b is not None:
+                binds[b[0]] = b[1]
+        for n in ast.walk(tree):
+            if isinstance(n, ast.Name) and isinstance(n.ctx, (ast.Store, ast.Del)):
+                count[n.id] = count.get(n.id, 0) + 1
+            elif isinstance(n, ast.arg):
+                count[n.arg] = count.get(n.arg, 0) + 2
+            elif isinstance(n, (ast.Global, ast.Nonlocal)):
+                for nm in n.names:
+                    count[nm] = count.get(nm, 0) + 2
+            elif isinstance(n, (ast.FunctionDef, ast.AsyncFunctionDef, ast.ClassDef)):
+                count[n.name] = count.get(n.name, 0) + 2
+            elif isinstance(n, (ast.Import, ast.ImportFrom)):
+                for a in n.names:
+                    nm = (a.asname or a.name).split(".")[0]
+                    count[nm] = count.get(nm, 0) + 2
+        self.mod = {k: v for k, v in binds.items() if count.get(k) == 1 and k not in ("__all__",) and not (k.startswith("__") and k.endswith("__"))}
+
+    def visit_Name(self, n: ast.Name):
+        if isinstance(n.ctx, ast.Load) and n.id in self.mod:
+            return ast.copy_location(_clone(self.mod[n.id]), n)
+        return n
+
+    def visit_Attribute(self, n: ast.Attribute):
+        self.generic_visit(n)
+        if isinstance(n.ctx, ast.Load) and n.attr in CLASS_CONSTS:
+            v = n.value
+            recv_ok = (isinstance(v, ast.Name) and (v.id in ("self", "cls") or v.id[:1].isupper())) \
+                or (isinstance(v, ast.Call) and isinstance(v.func, ast.Name) and v.func.id == "type" and len(v.args) == 1) \
+                or (isinstance(v, ast.Attribute) and v.attr == "__class__")
+            if recv_ok:
+                return ast.copy_location(_clone(CLASS_CONSTS[n.attr]), n)
+        return n
+
+
 def normalise(tree: ast.Module) -> ast.Module:
     roots = _inert_roots(tree)
     if roots:
         tree = _DropInert(roots).visit(tree)
+    pc = _PropagateConsts(tree)
+    if pc.mod or CLASS_CONSTS:
+        tree = pc.visit(tree)
     if NEVER_PASSED or FLAG_FIELDS:
         tree = _SpecialiseDefaults().visit(tree)
     tree = _IterSentinel().visit(tree)
